@@ -453,7 +453,10 @@ type flushScn struct {
 	PeerClose bool        `json:"peer_close,omitempty"`
 	UserClose bool        `json:"user_close,omitempty"`
 	Second    bool        `json:"second_flusher,omitempty"`
-	Fires     int         `json:"fires"`
+	// SecondN > 0: the concurrent caller uses Write with SecondN bytes of its own (0xEE) instead of a pure
+	// Flush, and only while a call of the first flusher is in progress: it must be rejected without a trace.
+	SecondN int `json:"second_write,omitempty"`
+	Fires   int `json:"fires"`
 }
 
 func genFlushScn(t *rapid.T, prop string) flushScn {
@@ -505,21 +508,25 @@ func genFlushScn(t *rapid.T, prop string) flushScn {
 		for i := range s.Calls {
 			s.Calls[i].Timeout = "none"
 		}
+		if rapid.Bool().Draw(t, "secondWrite") {
+			s.SecondN = rapid.IntRange(1, 300).Draw(t, "secondN")
+		}
 	}
 	return s
 }
 
 type flushResult struct {
-	Err       string `json:"err"`
-	startStep int
-	endStep   int
-	returned  bool
-	err       error
-	submitted int // stream offset after this call's bytes
-	lenAtRet  int
-	kernel    int // bytes the kernel had taken (peer consumed + queued at the peer) when the call returned
-	parkedIn  bool
-	panicked  interface{}
+	Err        string `json:"err"`
+	startStep  int
+	endStep    int
+	returned   bool
+	err        error
+	submitted  int // stream offset after this call's bytes
+	lenAtRet   int
+	kernel     int // bytes the kernel had taken (peer consumed + queued at the peer) when the call returned
+	parkedIn   bool
+	secondBusy bool // a concurrent Write was under way when the call returned
+	panicked   interface{}
 }
 
 type flushOutcome struct {
@@ -529,6 +536,7 @@ type flushOutcome struct {
 	received  []byte
 	submitted int
 	secondErr []error
+	secondOK  int // concurrent Writes that were accepted (the first flusher was between two calls): their bytes belong to the stream
 	parked    []string
 	livelock  bool
 	fired     []int
@@ -561,9 +569,14 @@ func runFlush(t *rapid.T, s flushScn, replay []vs.Step) *flushOutcome {
 	}
 	_ = pWaitFlush
 	peerClosed := false
+	inCall, secondBusy := false, false
 	flusher = w.s.Go("flusher", false, func() {
 		for i, call := range s.Calls {
 			res := o.res[i]
+			if s.SecondN > 0 {
+				// one writer at a time fills the output buffer: wait until a concurrent Write has returned
+				vs.WaitFor(-56, func() bool { return !secondBusy })
+			}
 			switch call.Timeout {
 			case "none":
 				c.SetWriteTimeout(0)
@@ -585,6 +598,8 @@ func runFlush(t *rapid.T, s flushScn, replay []vs.Step) *flushOutcome {
 				data := keyedBytes(o.submitted, call.N)
 				o.submitted += call.N
 				res.submitted = o.submitted
+				inCall = true
+				defer func() { inCall = false }()
 				var err error
 				switch call.API {
 				case "write":
@@ -624,6 +639,8 @@ func runFlush(t *rapid.T, s flushScn, replay []vs.Step) *flushOutcome {
 					}
 				}
 				res.err = err
+				inCall = false
+				res.secondBusy = secondBusy
 				if err == nil {
 					res.lenAtRet = c.outputBuffer.Len()
 					res.kernel = -1 // unknown once the peer end is gone: the kernel discards what it held
@@ -678,6 +695,14 @@ func runFlush(t *rapid.T, s flushScn, replay []vs.Step) *flushOutcome {
 		w.s.Go("second", false, func() {
 			vs.Yield(-54)
 			for i := 0; i < 2; i++ {
+				if s.SecondN > 0 {
+					done := false
+					vs.WaitFor(-57, func() bool { done = flusher.Done(); return inCall || done })
+					if done {
+						return
+					}
+					secondBusy = true
+				}
 				w.ev("second+")
 				func() {
 					defer func() {
@@ -685,6 +710,22 @@ func runFlush(t *rapid.T, s flushScn, replay []vs.Step) *flushOutcome {
 							o.secondErr = append(o.secondErr, fmt.Errorf("panic: %v", p))
 						}
 					}()
+					if s.SecondN > 0 {
+						junk := make([]byte, s.SecondN)
+						for j := range junk {
+							junk[j] = 0xEE
+						}
+						n, err := c.Write(junk)
+						if err == nil || n > 0 {
+							o.secondOK++ // it got the lock: its bytes were buffered and may have been sent
+						}
+						if n != 0 && errors.Is(err, ErrConcurrentAccess) {
+							err = fmt.Errorf("Write returned n=%d together with %v", n, err)
+						}
+						o.secondErr = append(o.secondErr, err)
+						secondBusy = false
+						return
+					}
 					err := c.Writer().Flush() // nothing of its own to submit: a pure concurrent Flush
 					o.secondErr = append(o.secondErr, err)
 				}()
@@ -700,6 +741,9 @@ func runFlush(t *rapid.T, s flushScn, replay []vs.Step) *flushOutcome {
 	o.livelock = livelock
 	for _, a := range parked {
 		o.parked = append(o.parked, a.Name)
+	}
+	if secondBusy {
+		o.secondOK++ // still inside its Write at quiescence: it holds the connection, part of its bytes may be out
 	}
 	for _, e := range w.events() {
 		if e.Name == "clock-fire" {
@@ -764,14 +808,34 @@ func judgeFlush(s flushScn, o *flushOutcome) (sig, msg string) {
 		}
 	}
 	exp := keyedBytes(0, len(o.received))
+	submitted := o.submitted
 	if timedOut && s.Second {
 		exp = o.received
+	}
+	if s.SecondN > 0 && !(timedOut && s.Second) {
+		// the bytes of accepted concurrent Writes (and of no others) are interleaved with the stream:
+		// the submitted stream must be a subsequence, everything else must be their 0xEE bytes
+		extra, k := 0, 0
+		for _, b := range o.received {
+			if k < o.submitted && b == keyed(k) {
+				k++
+			} else if b == 0xEE {
+				extra++
+			} else {
+				return "stream-corrupt", fmt.Sprintf("the peer's byte stream has a byte that neither continues the submitted stream (offset %d) nor belongs to a concurrent Write | events: %s", k, logs)
+			}
+		}
+		if extra > o.secondOK*s.SecondN {
+			return "rejected-write-left-bytes", fmt.Sprintf("the peer received %d bytes of the concurrent Writes, only %d such Writes got hold of the connection (%d bytes each), the others were rejected with %v | events: %s", extra, o.secondOK, s.SecondN, o.secondErr, logs)
+		}
+		exp = o.received
+		submitted += extra
 	}
 	if d := firstDiff(o.received, exp); d >= 0 {
 		return "stream-corrupt", fmt.Sprintf("the peer's byte stream differs from the submitted stream at offset %d (received %d, submitted %d) | events: %s", d, len(o.received), o.submitted, logs)
 	}
-	if len(o.received) > o.submitted && !(timedOut && s.Second) {
-		return "stream-extra", fmt.Sprintf("the peer received %d bytes, only %d were submitted", len(o.received), o.submitted)
+	if len(o.received) > submitted && !(timedOut && s.Second) {
+		return "stream-extra", fmt.Sprintf("the peer received %d bytes, only %d were submitted", len(o.received), submitted)
 	}
 	firstErr := false
 	for i, call := range s.Calls {
@@ -793,7 +857,7 @@ func judgeFlush(s flushScn, o *flushOutcome) (sig, msg string) {
 			for j := 0; j <= i; j++ {
 				submittedHere += s.Calls[j].N
 			}
-			roomLeft := drained >= submittedHere
+			roomLeft := drained >= submittedHere+o.secondOK*s.SecondN // the peer's reads also went to accepted concurrent Writes
 			if s.Prop == "C08" && (roomLeft || peerClose >= 0 || userClose >= 0) {
 				return "lost-wakeup", fmt.Sprintf("%s is blocked for ever although drainedAll=%v peerClosed=%v userClosed=%v (received %d) | events: %s | %s", desc, roomLeft, peerClose >= 0, userClose >= 0, len(o.received), logs, w.s.Describe())
 			}
@@ -808,10 +872,14 @@ func judgeFlush(s flushScn, o *flushOutcome) (sig, msg string) {
 		switch {
 		case res.err == nil:
 			if s.Prop == "C08" {
-				if res.lenAtRet != 0 && userClose < 0 {
+				if res.lenAtRet != 0 && userClose < 0 && !res.secondBusy {
 					return "nil-with-pending", fmt.Sprintf("%s returned nil with %d bytes still in the output buffer | events: %s", desc, res.lenAtRet, logs)
 				}
-				if res.kernel >= 0 && res.kernel != res.submitted {
+				junkOK := false // bytes of accepted concurrent Writes are in the kernel's count as well
+				for j := 1; j <= o.secondOK && s.SecondN > 0; j++ {
+					junkOK = junkOK || res.kernel == res.submitted+j*s.SecondN
+				}
+				if res.kernel >= 0 && res.kernel != res.submitted && !junkOK && !res.secondBusy {
 					return "nil-before-kernel", fmt.Sprintf("%s returned nil when the kernel had taken %d of the %d bytes submitted so far | events: %s", desc, res.kernel, res.submitted, logs)
 				}
 			}
@@ -867,7 +935,7 @@ func judgeFlush(s flushScn, o *flushOutcome) (sig, msg string) {
 		drainTotal += k
 	}
 	for _, n := range o.parked {
-		if n == "second" && (drainTotal < o.submitted) && peerClose < 0 && userClose < 0 {
+		if n == "second" && (drainTotal < o.submitted+o.secondOK*s.SecondN) && peerClose < 0 && userClose < 0 {
 			continue // it took over the flush and the peer never drains: legitimately waiting
 		}
 		if n != "flusher" && n != "peer" {
